@@ -68,7 +68,8 @@ static void gen(uint64_t seed, const std::string &prop, Plan &plan) {
         else if (c < 78) plan.ops.push_back(Op{0, "send", {(int64_t)r.below(8), (int64_t)(1 + r.below(r.chance(0.8) ? 300 : 60000))}, "", {}});
         else if (c < 86) plan.ops.push_back(Op{0, "close", {(int64_t)r.below(12)}, "", {}});
         else if (c < 90) plan.ops.push_back(Op{0, "sleep", {(int64_t)(1 + r.below(r.chance(0.7) ? 50 : 5000))}, "", {}});
-        else if (c < 95) plan.ops.push_back(Op{0, "attr", {(int64_t)r.below(8), (int64_t)r.below(6)}, "", {}});
+        else if (c < 93) plan.ops.push_back(Op{0, "attr", {(int64_t)r.below(8), (int64_t)r.below(6)}, "", {}});
+        else if (c < 96) plan.ops.push_back(Op{0, "flood", {(int64_t)r.below((uint64_t)nsrv), (int64_t)r.range(30, 44)}, stp[r.below((uint64_t)nsrv)], {}});   // nobody accepts: the listen queue fills up
         else plan.ops.push_back(Op{0, "pump", {2}, "", {}});
     }
     plan.ops.push_back(Op{0, "pump", {2}, "", {}, -1});
@@ -210,6 +211,20 @@ static void program(const Plan *pl) {
                     if (c) LX->conns.push_back(c);
                     else G->count("probe.accept_failed");
                 }
+            }
+        } else if (op.kind == "flood") {
+            // C05: non-blocking connects against a full listen queue report EAGAIN (or stay in progress), they never wait
+            if (!LX->servers.empty()) {
+                size_t sidx = (size_t)op.arg(0) % LX->servers.size();
+                std::string addr = LX->srv_addr[sidx], tp = addr.substr(0, addr.find(':'));
+                for (int i = 0; i < (int)op.arg(1) && !G->stopping; i++) {
+                    struct xcm_attr_map *m = nullptr;
+                    if (tp == "btcp" || tp == "btls") { m = xcm_attr_map_create(); xcm_attr_map_add_str(m, "xcm.service", "bytestream"); }
+                    XSock *c = x_connect(addr, m, true, strf("f%zu", LX->conns.size()));
+                    if (m) xcm_attr_map_destroy(m);
+                    if (c->s) LX->conns.push_back(c); else G->count("probe.flood_connect_refused");
+                }
+                G->count("probe.flood");
             }
         } else if (op.kind == "pump") pump((int)op.arg(0));
         else if (op.kind == "send") {
